@@ -14,9 +14,14 @@
      C05_type_*     classification depends on the upper-cased letter after the tilde only;
      C05_steering_* only ~V (VERS, WRAP, DLM) and ~W (NULL) can change how later
                     sections and the data are interpreted; other sections never do.
+     C05_others / C05_views / C05_read_blocks_congr / C05_steering_read_* (block "read level"
+                    at the end of this file): the ~Other loop's text per block, read as a
+                    function of the block views, and the steering clause at the level of read.
+   C05_steering_only_V_W, C05_steering_W_only_null, C05_steering_V_not_null and
+   C05_route_custom_frame are unfolding lemmas (see the block at the end).
    Not proved (covered by the correspondence only): that parse_section of body i yields
-   the items a specification would assign (that is C03/C04), permutation invariance as a
-   single statement, and the ~Other loop's raw-line '~' test. *)
+   the items a specification would assign (that is C03/C04) and permutation invariance as a
+   single statement. *)
 From Coq Require Import List Arith NArith Bool String.
 Import ListNotations.
 Require Import PyStr Regex Num Sections Read SectionsProofs ReadProofs.
